@@ -53,6 +53,11 @@ func VerifH_C17_matchRules() {
 	if data == nil {
 		data = []byte{}
 	}
+	orig := append([]byte{}, data...)
+	defer func() {
+		// C20: matching (exceptions run on the record itself) must not alter the record
+		vf.Assert(vf.SameBytes(data, orig), "record-not-altered-by-matching")
+	}()
 	mk := func(tag string, small bool) (Rule, bool) {
 		nsets, fold := len(valueSets), false
 		if small {
